@@ -203,6 +203,7 @@ pub fn c08() -> PropDef {
         assumptions: COMMON_ASSUMPTIONS,
         tiny: no_tiny,
         long: None,
+        growth: None,
     }
 }
 
@@ -448,5 +449,6 @@ pub fn c11() -> PropDef {
         assumptions: COMMON_ASSUMPTIONS,
         tiny: no_tiny,
         long: None,
+        growth: None,
     }
 }
